@@ -107,7 +107,7 @@ def scalar_inputs(rnd, n):
         out.append((t, desc("toscalar", b=B(t))))
     for v in [5, 0, -7, 2 ** 40, 0.1, 1e-3, 2.5, 1e22, 1 / 3]:
         out.append((v, desc("toscalar", b=B(repr(v)))))
-    for d in ["2.50", "1E+3", "0.000001"]:
+    for d in ["2.50", "1E+3", "0.000001", "1.234567890123456789012345", "123456789012345678901234", "0.999999999999999999999999", "-9007199254740993"]:   # (more digits than a float holds)
         out.append((Decimal(d), desc("toscalar", b=B(d))))
     out.append((Literal("a+b"), desc("literal", b=B("a+b"))))
     ms = ["1", "1000", "0.001", "1.5", "-2.50", "123456789012345678901234", "0.999999999999999999999999", "1E+3", "0",
